@@ -371,7 +371,11 @@ func oracleC07(rep *report, r *rng) {
 	n := rounds(rep, 3, 20)
 	forTypesAndEntries(r, func(t *genType, mk func(genOpts) any, tag string) {
 		for k := 0; k < n && !rep.failed(); k++ {
+			if k == 2 {
+				forceListLen = 25 + r.intn(40) // mid-size lists: block-wise readers have their thresholds here
+			}
 			m := mk(genOpts{canonical: true, bigLists: k == 1})
+			forceListLen = 0
 			before := dumpMsg(m)
 			st, enc := encodeFresh(m)
 			if st != "ok" {
@@ -645,7 +649,17 @@ func oracleC09(rep *report, r *rng) {
 	forTypesAndEntries(r, func(t *genType, mk func(genOpts) any, tag string) {
 		m := mk(genOpts{canonical: true, bigLists: r.chance(1, 6)})
 		_, enc := encodeFresh(m)
-		for _, in := range append(hostileInputs(r, t, enc, n), inflatedInputs(r, m, enc, 16)...) {
+		ins := append(hostileInputs(r, t, enc, n), inflatedInputs(r, m, enc, 16)...)
+		if tag == "" && hasListField(t) {
+			// a valid message whose lists are long enough for byte offsets to pass 65,536 (16-bit index arithmetic)
+			forceListLen = 7000
+			big := mk(genOpts{canonical: true})
+			forceListLen = 0
+			if stb, encb := encodeFresh(big); stb == "ok" && len(encb) < 4<<20 {
+				ins = append(ins, encb, append(append([]byte{}, encb...), 1, 2, 3))
+			}
+		}
+		for _, in := range ins {
 			if rep.failed() {
 				return
 			}
